@@ -6,6 +6,7 @@ the compiler produced.
 act_models(family) -> GenModel with info['acts'] = [spec...], info['jfrc'], info['tfrc'], info['gravcomp'],
 info['groupdisable'], info['flags'].
 """
+import json
 import math
 
 from hypothesis import strategies as st
@@ -16,6 +17,20 @@ num, fmt = mg.num, mg.fmt
 
 DEFAULT_MUSCLE = dict(range=(0.75, 1.05), force=-1.0, scale=200.0, lmin=0.5, lmax=1.6, vmax=1.5, fpmax=1.3,
                       fvmax=1.2, timeconst=(0.01, 0.04), tausmooth=0.0)
+
+
+class ActModel(mg.GenModel):
+  """GenModel whose replay form keeps the actuator specs (the check needs them to interpret the XML)."""
+
+  def to_json(self):
+    keep = ('acts', 'jfrc', 'tfrc', 'gravcomp', 'groupdisable', 'flags', 'integrator', 'family', 'labels')
+    # as one JSON string: the runner flattens deeply nested replay objects
+    return dict(xml=self.xml, info_json=json.dumps({k: self.info[k] for k in keep if k in self.info}))
+
+  @staticmethod
+  def from_json(obj):
+    info = json.loads(obj['info_json'])
+    return ActModel(obj['xml'], info)
 
 
 def _a(d):
@@ -239,6 +254,8 @@ def _actuator(draw, k, info, tkinds, family, only=None):
       area = draw(num(0.1, 5, 2))
       attrs['area'] = fmt(area)
     b = [draw(num(-2, 2, 1)), draw(num(-5, 5, 1)), draw(num(-2, 2, 1))]
+    if area == -b[1] and b[2] > 0:
+      b[2] = -b[2]
     attrs['bias'] = fmt(b)
     spec.update(dyn='filter', gain='fixed', bias='affine', gainprm=_prm([area]), biasprm=_prm(b), dynprm=_prm([tc]))
   elif kind in ('general', 'general_dyn', 'general_body'):
@@ -256,6 +273,8 @@ def _actuator(draw, k, info, tkinds, family, only=None):
       b = [0.0, -kp, draw(num(-2, 0, 1))]
     else:
       b = [draw(num(-2, 2, 1)), draw(num(-5, 5, 1)), draw(num(-2, 2, 1))] if bt == 'affine' else []
+    if b and g[0] == -b[1] and b[2] > 0:
+      b[2] = -b[2]     # "position-like" parameters with biasprm[2] > 0 are read as a dampratio by the compiler
     if gt != 'fixed' or draw(st.booleans()):
       attrs['gaintype'] = gt
     if bt != 'none' or draw(st.booleans()):
@@ -508,4 +527,4 @@ def act_models(draw, family='tree', max_bodies=4, max_act=5):
     labels.add('trn:' + s['trn']['kind'])
   info = dict(info, acts=acts, jfrc=jfrc, tfrc=tfrc, gravcomp=gravcomp, groupdisable=gd, flags=fl,
               integrator=integ, family=family, tkinds=tkinds, labels=sorted(labels))
-  return mg.GenModel(xml, info)
+  return ActModel(xml, info)
